@@ -8,5 +8,6 @@ INVARIANT ModelGraphWellFormed
 INVARIANT NoStuckSchedule
 INVARIANT ExpectAllIsSelective
 INVARIANT FlatRule
+INVARIANT UnityLaw
 CHECK_DEADLOCK FALSE
 POSTCONDITION EmitFamily
